@@ -6,6 +6,7 @@ import (
 	"encoding/base64"
 	"fmt"
 	"sort"
+	"strings"
 
 	_ "github.com/pentops/j5/gen/j5/state/v1/psm_j5pb"
 	"github.com/pentops/j5/internal/bcl/internal/verif/j5sgen"
@@ -203,7 +204,7 @@ func DrawCompiled(t *rapid.T) (*Schema, error) {
 	for _, p := range b.Packages {
 		files, err := j5sx.Compile(src, p.Name)
 		if err != nil {
-			return nil, fmt.Errorf("generated package does not compile (C07's subject): %w", err)
+			return nil, fmt.Errorf("generated package does not compile (C07's subject): %w\nsource:\n%s", err, renderAll(src))
 		}
 		for _, f := range files {
 			tx, err := j5sx.Print(f)
@@ -265,4 +266,17 @@ func DrawFrom(t *rapid.T, source string) (*Schema, error) {
 		return DrawCompiled(t)
 	}
 	return DrawSchema(t, pgen.Supported)
+}
+
+func renderAll(b *j5sx.Bundle) string {
+	var names []string
+	for n := range b.Files {
+		names = append(names, n)
+	}
+	sort.Strings(names)
+	var sb strings.Builder
+	for _, n := range names {
+		fmt.Fprintf(&sb, "=== %s\n%s\n", n, b.Files[n])
+	}
+	return sb.String()
 }
